@@ -32,6 +32,8 @@ type lockingStream struct {
 	cid     uint64
 	phase   int
 	profile string
+	// mapOrderBias: favour lock batches whose outcome would depend on the iteration order of a map
+	mapOrderBias bool
 	maxAgeD int64
 	maxAgeB int64
 	params  struct{ unlock, exit, jail, window, maxmissed int64 }
@@ -202,6 +204,9 @@ func (s *lockingStream) genReq(r *tr.Rng) *tr.Op {
 			t := s.pickTok(r)
 			if string(t) == string(s.tokens[0]) && w != 1<<63 {
 				w = uint64(tr.Pick(r, 1, 2, 3)) // keep the safe validator's token weighted
+				if r.Intn(1000) < 4 && !noHuge {
+					w = 0 // known finding F10: may empty the validator set
+				}
 			}
 			weights = append(weights, fmt.Sprintf("%x|%d", t, w))
 		}
@@ -237,8 +242,19 @@ func (s *lockingStream) genReq(r *tr.Rng) *tr.Op {
 	if r.Chance(3) {
 		nl = 6 // several validators in one batch (map order)
 	}
+	failing := s.mapOrderBias && r.Chance(30)
+	if failing {
+		nl = 4 + r.Intn(4) // several validators in one batch, one of them failing (map order would change the gas used)
+	}
 	for i := 0; i < nl; i++ {
+		if failing && i == nl/2 {
+			locks = append(locks, fmt.Sprintf("%x|%x|%s", r.Bytes(20), s.pickTok(r), amt(r))) // unknown validator
+			continue
+		}
 		locks = append(locks, fmt.Sprintf("%x|%x|%s", s.pickVal(r), s.pickTok(r), amt(r)))
+	}
+	if failing {
+		cls += "+failing-batch"
 	}
 	if nl > 0 {
 		cls += fmt.Sprintf("+lock%d", nl)
